@@ -40,23 +40,24 @@ Proof.
   rewrite E1, E2. reflexivity.
 Qed.
 
-(* a rule that matches in full sits in one of the four pools that get_recipients scans *)
+(* a rule whose evaluation gets past the type and interface tests sits in one of the four pools
+   that get_recipients scans *)
 Lemma full_match_type ns r s a m :
-  rule_matches ns r s a m false = Some true -> r_type r = None \/ r_type r = Some (m_type m).
+  rule_matches ns r s a m false <> Some false -> r_type r = None \/ r_type r = Some (m_type m).
 Proof.
   unfold rule_matches. cbn [negb andb]. destruct (r_type r) as [t|]; [|auto].
-  destruct (t =? m_type m) eqn:E; cbn [negb]; [apply N.eqb_eq in E; subst; auto | discriminate].
+  destruct (t =? m_type m) eqn:E; cbn [negb]; [apply N.eqb_eq in E; subst; auto | congruence].
 Qed.
 
 Lemma full_match_iface ns r s a m :
-  rule_matches ns r s a m false = Some true ->
+  rule_matches ns r s a m false <> Some false ->
   r_iface r = None \/ (exists i, r_iface r = Some i /\ m_iface m = Some i).
 Proof.
   unfold rule_matches. cbn [negb andb].
-  destruct (match r_type r with Some t => negb (t =? m_type m) | None => false end); [discriminate|].
+  destruct (match r_type r with Some t => negb (t =? m_type m) | None => false end); [congruence|].
   destruct (r_iface r) as [i|]; [|auto].
-  destruct (m_iface m) as [mi|]; [|discriminate].
-  destruct (bytes_eqb mi i) eqn:E; cbn [negb]; [|discriminate].
+  destruct (m_iface m) as [mi|]; [|congruence].
+  destruct (bytes_eqb mi i) eqn:E; cbn [negb]; [|congruence].
   apply bytes_eqb_eq in E; subst. intros _. right. eauto.
 Qed.
 
@@ -138,7 +139,8 @@ Theorem get_recipients_exact ns mk s a m l :
   Forall type_wf mk ->
   get_recipients ns mk s a m = Some l ->
   NoDup l /\
-  (forall c, In c l <-> a <> Some c /\ exists r, In r mk /\ r_owner r = c /\ full ns s a m r).
+  (forall c, In c l <-> a <> Some c /\ exists r, In r mk /\ r_owner r = c /\ full ns s a m r) /\
+  (forall r, In r mk -> rule_matches ns r s a m false <> None).
 Proof.
   intros Hwf H. unfold get_recipients in H.
   set (seen0 := match a with Some x => [x] | None => [] end) in *.
@@ -151,10 +153,10 @@ Proof.
   destruct (recipients_from_list ns P3 s a m s2 a2) as [[a3 s3]|] eqn:R3; [|discriminate].
   destruct (recipients_from_list ns P4 s a m s3 a3) as [[a4 s4]|] eqn:R4; [|discriminate].
   inversion H; subst a4; clear H.
-  destruct (rfl_spec _ _ _ _ _ _ _ _ _ R1 (NoDup_nil _) (fun c (F : In c []) => match F with end)) as [N1 [S1 [I1 [Z1 _]]]].
-  destruct (rfl_spec _ _ _ _ _ _ _ _ _ R2 N1 S1) as [N2 [S2 [I2 [Z2 _]]]].
-  destruct (rfl_spec _ _ _ _ _ _ _ _ _ R3 N2 S2) as [N3 [S3 [I3 [Z3 _]]]].
-  destruct (rfl_spec _ _ _ _ _ _ _ _ _ R4 N3 S3) as [N4 [S4 [I4 [Z4 _]]]].
+  destruct (rfl_spec _ _ _ _ _ _ _ _ _ R1 (NoDup_nil _) (fun c (F : In c []) => match F with end)) as [N1 [S1 [I1 [Z1 F1]]]].
+  destruct (rfl_spec _ _ _ _ _ _ _ _ _ R2 N1 S1) as [N2 [S2 [I2 [Z2 F2]]]].
+  destruct (rfl_spec _ _ _ _ _ _ _ _ _ R3 N2 S2) as [N3 [S3 [I3 [Z3 F3]]]].
+  destruct (rfl_spec _ _ _ _ _ _ _ _ _ R4 N3 S3) as [N4 [S4 [I4 [Z4 F4]]]].
   split; [assumption|].
   (* every pool member is a rule of mk for which the skipped tests are true *)
   assert (Hp : forall r, In r P1 \/ In r P2 \/ In r P3 \/ In r P4 ->
@@ -170,8 +172,8 @@ Proof.
       destruct (m_iface m) as [i|] eqn:Ei; [|destruct Hr].
       apply pool_in in Hr. destruct Hr as [Hin [Ht Hi]]. split; [assumption|]. apply skip_sound; [auto|]. right. eauto. }
   (* every rule of mk that matches in full is in one of the pools *)
-  assert (Hq : forall r, In r mk -> full ns s a m r -> In r P1 \/ In r P2 \/ In r P3 \/ In r P4).
-  { intros r Hin Hf. unfold full in Hf.
+  assert (Hq : forall r, In r mk -> rule_matches ns r s a m false <> Some false -> In r P1 \/ In r P2 \/ In r P3 \/ In r P4).
+  { intros r Hin Hf.
     pose proof (full_match_type _ _ _ _ _ Hf) as Ht.
     pose proof (full_match_iface _ _ _ _ _ Hf) as Hi.
     rewrite Forall_forall in Hwf. specialize (Hwf r Hin). unfold type_wf in Hwf.
@@ -185,6 +187,11 @@ Proof.
   { intros c. unfold seen0. destruct a as [x|]; simpl; split; try tauto; try congruence.
     - intros [->|[]]. reflexivity.
     - intros E. inversion E. auto. }
+  split.
+  2:{ intros r Hin Hnone.
+      assert (Hnf : rule_matches ns r s a m false <> Some false) by congruence.
+      destruct (Hp r (Hq r Hin Hnf)) as [_ Heq].
+      destruct (Hq r Hin Hnf) as [Hr|[Hr|[Hr|Hr]]]; [apply (F1 r Hr)|apply (F2 r Hr)|apply (F3 r Hr)|apply (F4 r Hr)]; congruence. }
   intros c. split.
   - intros Hc.
     (* trace c back through the four stages *)
@@ -202,7 +209,8 @@ Proof.
       unfold full, hit in *. congruence.
   - intros [Hna [r [Hin [Ho Hf]]]].
     assert (Hn0 : ~ In c seen0) by (intros F; apply Hna; now apply Hseen0).
-    destruct (Hq r Hin Hf) as [Hr|[Hr|[Hr|Hr]]];
+    assert (Hnf : rule_matches ns r s a m false <> Some false) by (unfold full in Hf; congruence).
+    destruct (Hq r Hin Hnf) as [Hr|[Hr|[Hr|Hr]]];
       (assert (Hh : hit ns s a m r) by (unfold hit; destruct (Hp r) as [_ ->]; [tauto | exact Hf])).
     + apply I4. left. apply I3. left. apply I2. left. apply I1. right. split; [assumption|]. eauto.
     + destruct (in_dec N.eq_dec c a1) as [Hc|Hc].
